@@ -189,6 +189,38 @@ PROPS = {
         "assumptions": ["as C05", "assumed write_all contract: on Err a prefix of the slice was appended"],
         "not_covered": ["body source faults (file missing / unreadable / shorter than declared)", "handle_http_conn's `write_response(&e.into())` + shutdown_write branch"],
     },
+    "C01": {
+        "title": "Request reading is total (framing and fragmentation part)",
+        "design_ref": "DESIGN.md section 4 (C01)",
+        "technique": "Verus contracts on the real find_slice / Head::read_head_bytes / read_http_head / trim_whitespace / From<HeadError> over the "
+                     "reader event history, with Head::try_read's parsing half abstracted as an uninterpreted total function; partition independence as a lemma",
+        "level_text": "Deductive proof for every buffer content, every stream and every partition into reads, unbounded: read_http_head "
+                      "terminates; its outcome is a function of the bytes available (buffered ++ delivered) only -- HeadTooLong iff the buffer "
+                      "fills without CRLFCRLF, Disconnected / Truncated on end of stream or read error with empty / non-empty buffer, otherwise "
+                      "the parse result of exactly the bytes before the first CRLFCRLF -- the read index advances by exactly head+4 and everything "
+                      "after stays readable, nothing is written; thm_partition_independent: two runs over prefixes of one stream agree.",
+        "level_note": "Head::try_read is assumed to be `read_head_bytes(buf)?` followed by a total parse that never yields HeadError::Truncated "
+                      "(both side conditions are checked syntactically on the working tree every run; read_head_bytes itself is proved). "
+                      "parse_header_line is under contract in unit `parse` (total, every unwrap unreachable, given the assumed meaning of its "
+                      "regex matcher). Not covered: panic-freedom of parse_request_line (Url crate), the line splitting in try_read, panic "
+                      "hooks. FixedBuf and the reader are assumed contracts.",
+        "verus": ["head", "parse"],
+        "verus_thorough": [],
+        "kani": [],
+        "witness": "c01",
+        "assumptions": [
+            "Head::try_read == read_head_bytes(buf)? ; parse(head bytes) with parse total and never Truncated (syntactic side conditions checked every run)",
+            "assumed contract: fixed_buffer::FixedBuf index arithmetic (from its source)",
+            "assumed contract: AsyncReadExt::read; streams finite",
+            "`==` on [u8] is element-wise (vstd PartialEqSpec for slices)",
+        ],
+        "not_covered": [
+            "parse_request_line (str::from_utf8, url::Url) and the split/map line iteration in try_read",
+            "that the safe_regex matcher implements the regular expression literal (assumed contract of Matcher2::match_slices, keyed to the exact literal)",
+            "process panic hook / 'task silently killed'",
+            "read_http_request's buf.shift() before reading (first statement of an async fn with iterator chains)",
+        ],
+    },
 }
 
 NOT_APPLICABLE = {}
